@@ -124,6 +124,26 @@ def wide_configs(tier):
     return out
 
 
+def faulty(kind, agg, fl, ncb=0):
+    """asynchronous configuration explored WITH faults (one faulty collection point per history: a callback
+    returning an error, or an aborted collection); two values keep the 5x larger graph small"""
+    c = stream(kind, agg, fl, ncb=ncb)
+    c["model"]["vals"] = c["model"]["vals"][:2]
+    c["model"]["bounds"] = [b for b in c["model"]["bounds"] if b in c["model"]["vals"]]
+    c["name"] += ".faults"
+    c["extra"]["name"] += ".faults"
+    c["faults"] = 1
+    return c
+
+
+def fault_configs(tier):
+    out = [faulty("ObsCounter", "sum", False), faulty("ObsGauge", "last", True), faulty("ObsUpDownCounter", "sum", True),
+           faulty("ObsCounter", "hist", False)]
+    if tier == "thorough":
+        out += [faulty("ObsCounter", "sum", True, ncb=3), faulty("ObsUpDownCounter", "expo", False), faulty("ObsGauge", "hist", False)]
+    return out
+
+
 def configs(tier, seed):
     out = []
     for i, (kind, agg) in enumerate(COMBOS):
@@ -139,7 +159,7 @@ def configs(tier, seed):
                   stream("Gauge", "last", False, noview=True), stream("ObsGauge", "last", True, noview=True),
                   stream("UpDownCounter", "sum", True, noview=True), stream("ObsUpDownCounter", "sum", False, noview=True),
                   stream("ObsCounter", "sum", False, ncb=3), stream("ObsGauge", "last", True, ncb=3)]
-    return out + extra + wide_configs(tier)
+    return out + extra + wide_configs(tier) + fault_configs(tier)
 
 
 def plan(c, tier):
@@ -150,6 +170,8 @@ def plan(c, tier):
               float64 histograms keep 3 points in full); asynchronous: 3 points, every second edge."""
     m = c["model"]
     is_async, fl, bags = m["kind"] in ASYNC, m["unit"] != 1, m["agg"] in ("hist", "expo")
+    if c.get("faults"):
+        return 3, 2, (2 if tier == "thorough" else 6)
     if m["wide"]:  # every operation sequence is a state: (1 + n + n^2)^3 collection edges for n values
         big = len(m["vals"]) > 4 and not is_async
         return 3, 2, ((2 if big else 1) if tier == "thorough" else (8 if big else 3))
@@ -229,9 +251,11 @@ def run(ctx):
     def explore_and_replay(ic):
         i, c = ic
         mc, mo, k = plan(c, ctx.tier)
-        cov = c["name"] in (cfgs[0]["name"], next(x["name"] for x in cfgs if x["model"]["kind"] in ASYNC))
+        cov = c["name"] in (cfgs[0]["name"], next(x["name"] for x in cfgs if x["model"]["kind"] in ASYNC),
+                            next(x["name"] for x in cfgs if x.get("faults")))
         r = ctx.tlc(S, "MC_Temporality", "MC_Temporality.cfg", want_edges=True, name="E-" + c["name"], timeout=2400,
-                    defines={"CFG": tla(c["model"]), "MAXCYCLES": mc, "MAXOPS": mo}, coverage=cov, count=False,
+                    defines={"CFG": tla(c["model"]), "MAXCYCLES": mc, "MAXOPS": mo, "MAXFAULT": c.get("faults", 0)},
+                    coverage=cov, count=False,
                     deque=True)  # in-memory state queue: TLC's disk queue cannot serialise the lazily built st
         trace = os.path.join(ctx.work, "replay-%s.ndjson" % c["name"])
         resf = os.path.join(ctx.work, "replay-%s.json" % c["name"])
